@@ -227,7 +227,14 @@ def definition_converters_from_words(words, converter_registry, converter_cache)
                 f'Error constructing definition type "%s": {e.__class__.__name__}: {e!s}%s'
                 % (call_expression, words[0].where_str())
             )
-    converter_cache[call_expression] = weakref.ref(converters_instance)
+    try:
+        converter_cache[call_expression] = weakref.ref(converters_instance)
+    except TypeError:
+        # the expression evaluated to something else, e.g. ".type = int(), 5" gives a tuple
+        raise RuntimeError(
+            'Error constructing definition type "%s": not a converter object%s'
+            % (call_expression, words[0].where_str())
+        )
     return converters_instance
 
 
